@@ -121,6 +121,14 @@ def run(c):
                        disagreements_checked=len(mism), input_distribution=dist, oracle_violations=len(viol))
             if rc != 0 or "cases" not in summ:
                 c.broken.append("model driver failed: %s" % mout[-1000:])
+            kf = {f["id"]: f for f in c.known_findings()}
+            khits = [l for l in other if l.startswith("KNOWN caller-write")]
+            cov["known_caller_write_cases"] = len(khits)
+            if khits:
+                if "C14-caller-write" in kf:
+                    c.known(kf["C14-caller-write"])
+                else:
+                    c.violation({"kind": "a finding that KNOWN_FINDINGS.jsonl does not list", "lines": khits[:5]})
             for v in viol[:3]:
                 body = v.split(" ", 2)[2]
                 line, _, why = body.rpartition(" :: ")
